@@ -54,6 +54,15 @@ SumSeq(s, k) == IF k > Len(s) THEN 0 ELSE s[k] + SumSeq(s, k + 1)
 MaxAbs(s, k) == IF k > Len(s) THEN 0 ELSE LET r == MaxAbs(s, k + 1) IN IF Abs(s[k]) > r THEN Abs(s[k]) ELSE r
 Dot(x, y, k) == IF k > Len(x) THEN 0 ELSE x[k] * y[k] + Dot(x, y, k + 1)
 
+\* numpy-style broadcasting of integer scalars against integer vectors of one common length
+IsVec(v) == IsA(v) /\ ElemsDefined(v[2])
+Broadcastable(vs) ==
+    /\ \A k \in DOMAIN vs : IsI(vs[k]) \/ IsVec(vs[k])
+    /\ \E k \in DOMAIN vs : IsVec(vs[k])
+    /\ \A k, m \in DOMAIN vs : (IsVec(vs[k]) /\ IsVec(vs[m])) => Len(vs[k][2]) = Len(vs[m][2])
+VecLen(vs) == Len(vs[CHOOSE k \in DOMAIN vs : IsA(vs[k])][2])
+Elem(v, j) == IF IsI(v) THEN v[2] ELSE v[2][j]
+
 \* a second interpretation of the user function symbols ("for all interpretations" is sampled by two)
 ApplyAlt(f, args, kw) ==
     CASE f = "<func>f" ->
@@ -94,6 +103,13 @@ Apply(f, args, kw) ==
             LET x == IF Len(args) = 1 THEN args[1] ELSE KwGet(kw, "x", U) IN
               IF IsA(x) /\ ElemsDefined(x[2]) THEN A([k \in DOMAIN x[2] |-> Abs(x[2][k])])
               ELSE IF IsI(x) THEN I(Abs(x[2])) ELSE U
+      [] f = "<func>rhs" ->                                     \* rhs(t, y) = -2*y + t on vectors
+            IF Len(args) = 2 /\ IsI(args[1]) /\ IsVec(args[2]) /\ Abs(args[1][2]) <= 1000
+               /\ (\A j \in DOMAIN args[2][2] : Abs(args[2][2][j]) <= 10000)
+            THEN A([j \in DOMAIN args[2][2] |-> -2 * args[2][2][j] + args[1][2]]) ELSE U
+      [] f = "<func>h2" ->                                      \* h2(x, y) = (x + 1, 2*y)
+            IF Len(args) = 2 /\ AllInts(args) /\ Abs(args[2][2]) <= 10000
+            THEN <<"t", <<Clip(args[1][2] + 1), Clip(2 * args[2][2])>>>> ELSE U
       [] f \in {"min", "max"} -> <<"e", "call of an unknown function">>   \* a Call node, not a Min/Max node
       [] OTHER -> U
 
@@ -122,10 +138,17 @@ Eval(e, st) ==
       [] e[1] = "v" -> IF e[2] \in DOMAIN st THEN st[e[2]] ELSE U
       [] e[1] = "sum" ->
             LET vs == EvalSeq(e[2], st, 1) IN
-              IF AllInts(vs) THEN Clip(SumSeq([k \in DOMAIN vs |-> vs[k][2]], 1)) ELSE U
+              IF AllInts(vs) THEN Clip(SumSeq([k \in DOMAIN vs |-> vs[k][2]], 1))
+              ELSE IF Broadcastable(vs)
+                   THEN LET r == [j \in 1..VecLen(vs) |-> SumSeq([k \in DOMAIN vs |-> Elem(vs[k], j)], 1)] IN
+                          IF \A j \in DOMAIN r : Small(r[j]) THEN A(r) ELSE U
+                   ELSE U
       [] e[1] = "prod" ->
             LET vs == EvalSeq(e[2], st, 1) IN
-              IF AllInts(vs) /\ (\A k \in DOMAIN vs : Small(vs[k][2])) THEN SafeProd(vs, 1, 1) ELSE U
+              IF AllInts(vs) /\ (\A k \in DOMAIN vs : Small(vs[k][2])) THEN SafeProd(vs, 1, 1)
+              ELSE IF Broadcastable(vs) /\ (\A k \in DOMAIN vs : \A j \in 1..VecLen(vs) : Abs(Elem(vs[k], j)) <= 1000) /\ Len(vs) <= 3
+                   THEN A([j \in 1..VecLen(vs) |-> ProdSeq([k \in DOMAIN vs |-> I(Elem(vs[k], j))], 1)])
+                   ELSE U
       [] e[1] = "pow" ->
             LET b == Eval(e[2], st)  x == Eval(e[3], st) IN
               IF IsI(b) /\ IsI(x) /\ x[2] >= 0 /\ x[2] <= 4 /\ Abs(b[2]) <= 12 THEN I(PowInt(b[2], x[2])) ELSE U
